@@ -216,7 +216,10 @@ class PosePath3D(object):
         # Project poses and rotations (forcing to angle around normal).
         rotation_axis = np.zeros(3)
         rotation_axis[null_dim] = 1
-        for pose in self.poses_se3:
+        # Work on copies: the pose matrices can be shared with other
+        # trajectory objects (e.g. with the parts returned by split_*()).
+        self._poses_se3 = [np.array(pose) for pose in self.poses_se3]
+        for pose in self._poses_se3:
             pose[null_dim, 3] = 0
             angle_axis = rotation_axis * tr.euler_from_matrix(
                 pose[:3, :3], "sxyz")[null_dim]
